@@ -1399,4 +1399,479 @@ theorem F_cstep {s t : CState} {xs todo ch cp : List Elem} (hc : 1 ≤ c) (hs : 
           simp only [finishOp, List.length_append, List.length_cons, List.length_nil]
           omega
 
+/-! ### preservation: the caller moves inside a spilling `Finalise` -/
+
+theorem all_done_of_wg {s : CState} (hs : Str s) (hpc : s.pc ≠ .finWrite) (hwg : s.wg = 0) :
+    ∀ w ∈ s.writers, w.pc = .done := by
+  have hcnt : s.writers.countP live = 0 := by
+    have := hs.wg
+    rw [hwg] at this
+    have e : (s.pc == CPc.finWrite) = false := by simpa using hpc
+    simp [cnt, e, b2n] at this
+    exact this.symm
+  intro w hw
+  have hl : ¬ live w = true := List.countP_eq_zero.mp hcnt w hw
+  simpa [live] using hl
+
+theorem wb_nil_of_done {s : CState} (hs : Str s) (hpc : s.pc ≠ .finWrite)
+    (hd : ∀ w ∈ s.writers, w.pc = .done) : s.writable.buf = [] := by
+  have h0 : s.writers.countP atRecv = 0 := by
+    apply List.countP_eq_zero.mpr
+    intro w hw; simp [atRecv, hd w hw]
+  have := hs.chan
+  have e : (s.pc == CPc.finWrite) = false := by simpa using hpc
+  simp [cnt, e, b2n, h0] at this
+  exact this
+
+theorem count_flatMap_nil {α} (a : Elem) (l : List α) (f : α → List Elem) (h : ∀ x ∈ l, f x = []) :
+    List.count a (l.flatMap f) = 0 := by
+  induction l with
+  | nil => simp
+  | cons x xs ih =>
+    rw [count_flatMap_cons, h x (by simp), ih (fun y hy => h y (List.mem_cons_of_mem _ hy))]
+    simp
+
+theorem Z_cstep {s t : CState} {A : List Writer} {cp : List Elem} (hs : Str s)
+    (herr : s.m.err = none) (hZ : PhaseZ c ac cy s A cp) (hst : CStep s t) : CInv c ac cy t := by
+  have hpcs : s.pc = .finSend ∨ s.pc = .finWrite ∨ s.pc = .finWait := by
+    rcases hZ.at_ with ⟨a, _⟩ | ⟨a, _⟩ | ⟨a, _⟩
+    · exact Or.inl a
+    · exact Or.inr (Or.inl a)
+    · exact Or.inr (Or.inr a)
+  have pcne : ∀ {p : CPc}, s.pc = p → p = .finSend ∨ p = .finWrite ∨ p = .finWait := by
+    intro p hp; rw [← hp]; exact hpcs
+  cases hst with
+  | pushErr _ _ _ hpc => rcases pcne hpc with h | h | h <;> cases h
+  | pushNil _ _ hpc => rcases pcne hpc with h | h | h <;> cases h
+  | pushFull _ _ _ hpc => rcases pcne hpc with h | h | h <;> cases h
+  | pushRoom _ _ _ hpc => rcases pcne hpc with h | h | h <;> cases h
+  | finErr _ _ hpc => rcases pcne hpc with h | h | h <;> cases h
+  | finNil _ hpc => rcases pcne hpc with h | h | h <;> cases h
+  | finFast _ _ hpc => rcases pcne hpc with h | h | h <;> cases h
+  | finDisk _ _ hpc => rcases pcne hpc with h | h | h <;> cases h
+  | finEmpty _ _ _ _ _ hpc => rcases pcne hpc with h | h | h <;> cases h
+  | pull _ hpc => rcases pcne hpc with h | h | h <;> cases h
+  | clear _ hpc => rcases pcne hpc with h | h | h <;> cases h
+  | send _ _ hpc => rcases pcne hpc with h | h | h <;> cases h
+  | recvErr _ _ _ hpc => rcases pcne hpc with h | h | h <;> cases h
+  | recvOk _ _ hpc => rcases pcne hpc with h | h | h <;> cases h
+  | waitErr _ _ _ he => rw [herr] at he; cases he
+  | fsend ch wr hpc hch hsend =>
+    obtain ⟨hb, hcap, _⟩ := Chan.send_buf hsend
+    rcases hZ.at_ with ⟨_, hA, hchunk, hne⟩ | ⟨a, _⟩ | ⟨a, _⟩
+    · rw [hchunk] at hch; cases hch
+      subst hA
+      refine Or.inr (Or.inr ⟨herr, Or.inr (Or.inl ⟨s.writers ++ [newWriter], [], ?_⟩)⟩)
+      refine ⟨hZ.prog, hZ.outs, hZ.pos, hZ.len, hZ.cs, hZ.ac, hZ.fast, ?_, Or.inr (Or.inl ⟨rfl, rfl, rfl, rfl⟩)⟩
+      show DI wr.buf (s.writers ++ [newWriter]) s.m.files [] cy.pushes
+      rw [hb]; exact DI_send hZ.di hne
+    · rw [hpc] at a; cases a
+    · rw [hpc] at a; cases a
+  | fwrite w s' hpc hw =>
+    have E := inl_effect hs hpc hw
+    rcases hZ.at_ with ⟨a, _⟩ | ⟨_, hA, hchunk, hcp⟩ | ⟨a, _⟩
+    · rw [hpc] at a; cases a
+    · subst hcp
+      rcases wstep_err hw with he' | he'
+      · rw [herr] at he'
+        have hi : A[s.writers.length]? = some s.inl := by
+          rw [hA, List.getElem?_append_right (Nat.le_refl _)]; simp
+        have hdi := DI_wstep hZ.di hi hw he'
+        have hset : A.set s.writers.length w = s.writers ++ [w] := by
+          rw [hA, List.set_append]; simp
+        rw [hset] at hdi
+        by_cases hd : w.pc = .done
+        · refine Or.inr (Or.inr ⟨he', Or.inr (Or.inl ⟨s.writers, [], ?_⟩)⟩)
+          refine ⟨by show s'.prog = _; rw [E.prog]; exact hZ.prog,
+            by show s'.outs.reverse = _; rw [E.outs]; exact hZ.outs,
+            by show s'.m.pos = _; rw [E.pos]; exact hZ.pos, by show s'.m.len = _; rw [E.len]; exact hZ.len,
+            by show s'.m.chunkSize = _; rw [E.cs]; exact hZ.cs, by show s'.m.autoClear = _; rw [E.ac]; exact hZ.ac,
+            by show s'.m.fast = _; rw [E.fast]; exact hZ.fast, DI_dropDone hdi hd, ?_⟩
+          refine Or.inr (Or.inr ⟨by simp [hd], by show s.writers = s'.writers; rw [E.writers],
+            by show s'.m.chunk = none; rw [E.chunk]; exact hchunk, rfl, by show 1 ≤ s'.m.pool; exact wstep_done_pool hw hd⟩)
+        · refine Or.inr (Or.inr ⟨he', Or.inr (Or.inl ⟨s.writers ++ [w], [], ?_⟩)⟩)
+          refine ⟨by show s'.prog = _; rw [E.prog]; exact hZ.prog,
+            by show s'.outs.reverse = _; rw [E.outs]; exact hZ.outs,
+            by show s'.m.pos = _; rw [E.pos]; exact hZ.pos, by show s'.m.len = _; rw [E.len]; exact hZ.len,
+            by show s'.m.chunkSize = _; rw [E.cs]; exact hZ.cs, by show s'.m.autoClear = _; rw [E.ac]; exact hZ.ac,
+            by show s'.m.fast = _; rw [E.fast]; exact hZ.fast, hdi, ?_⟩
+          refine Or.inr (Or.inl ⟨by simp [hd], by show s.writers ++ [w] = s'.writers ++ [w]; rw [E.writers],
+            by show s'.m.chunk = none; rw [E.chunk]; exact hchunk, rfl⟩)
+      · refine Or.inr (Or.inl ⟨he', Or.inr ⟨tailOps cy, ?_⟩⟩)
+        show s'.prog = _; rw [E.prog]; exact hZ.prog
+    · rw [hpc] at a; cases a
+  | waitOk flt fs ok hpc hwg _ hprime =>
+    rcases hZ.at_ with ⟨a, _⟩ | ⟨a, _⟩ | ⟨_, hA, hchunk, hcp, hpool⟩
+    · rw [hpc] at a; cases a
+    · rw [hpc] at a; cases a
+    · subst hcp; subst hA
+      cases ok
+      · exact Or.inl (by simpa using Reported_finish (s := { s with flt := flt, m := { s.m with pos := 0, files := fs } }) none)
+      · have hne : s.pc ≠ .finWrite := by rw [hpc]; simp
+        have hdone := all_done_of_wg hs hne hwg
+        have hwb := wb_nil_of_done hs hne hdone
+        have hfs : fs = s.m.files.map primeFile := by
+          have := primeAll_ok s.flt s.m.files (by rw [hprime])
+          rw [hprime] at this; exact this
+        have htodo : ∀ a, List.count a (s.writers.flatMap (·.todo)) = 0 := by
+          intro a
+          apply count_flatMap_nil
+          intro w hw
+          exact hZ.di.todoNil w hw (by rw [hdone w hw]; simp) (by rw [hdone w hw]; simp)
+        have hruns : ∀ f ∈ s.m.files, Sorted f.data ∧ f.data ≠ [] := by
+          intro f hf
+          refine ⟨hZ.di.filesOK f hf, ?_⟩
+          intro h0
+          obtain ⟨i, hi⟩ := List.mem_iff_getElem?.mp hf
+          obtain ⟨w, hw, hp, _⟩ := hZ.di.filesNe i f hi h0
+          rw [hdone w hw] at hp; cases hp
+        have hperm : (s.m.files.flatMap (·.data)).Perm cy.pushes := by
+          apply perm_of_count
+          intro a
+          have := hZ.di.perm a
+          rw [hwb, htodo a] at this
+          simpa using this
+        have hrem : remaining (finishOp { s with flt := flt, m := { s.m with pos := 0, files := fs } } Res.ok none).m
+            = s.m.files.flatMap (·.data) := by
+          simp only [finishOp, remaining, hZ.fast, Bool.false_eq_true, if_false, hfs]
+          exact flatMap_primeFile _ hruns
+        have hpool2 : s.m.pool ≤ 2 := by have := hs.cap; omega
+        refine Or.inr (Or.inr ⟨by simpa [finishOp] using herr, Or.inr (Or.inr (Or.inl ⟨rfl, hdone, ?_⟩))⟩)
+        refine ⟨[], 0, cy.pulls, ?_, by simp, ?_, by simp [Sorted], Or.inl ⟨rfl, ?_, ?_, by simp, by simp [finishOp]⟩⟩
+        · simp only [if_true]; rw [finishOp_ok_prog]; show s.prog.tail = _; rw [hZ.prog]; rfl
+        · simp only [if_true]; rw [finishOp_outs]; show s.outs.reverse ++ _ = _
+          rw [hZ.outs]; simp [dOuts, hZ.len]
+        · simp only [if_true]
+          refine ⟨by simp [finishOp, hZ.cs], by simp [finishOp, hZ.ac], by simp [finishOp, herr],
+            by simp [finishOp, hZ.len], ?_, ?_⟩
+          · rw [hrem, hperm.length_eq]; simp [finishOp]
+          · refine Or.inr ⟨by simp [finishOp, hZ.fast], by simp [finishOp, hchunk], by simp [finishOp]; omega, ?_⟩
+            intro f hf
+            simp only [finishOp, hfs] at hf
+            obtain ⟨g, hg, rfl⟩ := List.mem_map.mp hf
+            exact (primeFile_ok (hruns g hg).1 (hruns g hg).2).1
+        · simp only [if_true]; rw [hrem]; simpa using hperm
+
+/-! ### preservation: the caller pulls and clears -/
+
+theorem dprog_pull {k : Nat} {b : Bool} {rest : List Op}
+    (h : List.replicate k Op.pull ++ (if b then [Op.clear] else []) = Op.pull :: rest) :
+    ∃ k', k = k' + 1 ∧ rest = List.replicate k' Op.pull ++ (if b then [Op.clear] else []) := by
+  cases k with
+  | zero => cases b <;> simp at h
+  | succ k' =>
+    simp only [List.replicate_succ, List.cons_append, List.cons.injEq, true_and] at h
+    exact ⟨k', rfl, h.symm⟩
+
+theorem dprog_clear {k : Nat} {b : Bool} {rest : List Op}
+    (h : List.replicate k Op.pull ++ (if b then [Op.clear] else []) = Op.clear :: rest) :
+    k = 0 ∧ b = true ∧ rest = [] := by
+  cases k with
+  | zero => cases b <;> simp at h; exact ⟨rfl, rfl, h⟩
+  | succ k' => simp [List.replicate_succ] at h
+
+theorem dprog_not {k : Nat} {b : Bool} {op : Op} {rest : List Op}
+    (h : List.replicate k Op.pull ++ (if b then [Op.clear] else []) = op :: rest) :
+    op = Op.pull ∨ op = Op.clear := by
+  cases k with
+  | zero => cases b <;> simp at h; exact Or.inr h.1.symm
+  | succ k' => simp [List.replicate_succ] at h; exact Or.inl h.1.symm
+
+theorem clear_len_pos (m : Morass.State) : (clear m).len = 0 ∧ (clear m).pos = 0 ∧ (clear m).err = none := by
+  unfold clear; split <;> exact ⟨rfl, rfl, rfl⟩
+
+theorem sorted_append {l₁ l₂ : List Elem} (h1 : Sorted l₁) (h2 : Sorted l₂)
+    (h : ∀ a ∈ l₁, ∀ b ∈ l₂, a.key ≤ b.key) : Sorted (l₁ ++ l₂) :=
+  List.pairwise_append.mpr ⟨h1, h2, h⟩
+
+/-- what has been delivered, completed by a sorted enumeration of what remains, is the sorted
+    enumeration the property talks about -/
+theorem D_ys {ds rem P : List Elem} (hsd : Sorted ds) (hperm : (ds ++ rem).Perm P)
+    (hle : ∀ d ∈ ds, ∀ r ∈ rem, d.key ≤ r.key) : SortedPermOf (ds ++ sortRun rem) P := by
+  refine ⟨(List.Perm.append_left ds (sortRun_perm rem)).trans hperm, ?_⟩
+  apply sorted_append hsd (sortRun_sorted rem)
+  intro a ha b hb
+  exact hle a ha b ((sortRun_perm rem).mem_iff.mp hb)
+
+theorem D_final {s : CState} (hD : PhaseD c ac cy s) (hprog : s.prog = []) (hcl : cy.clear = false) :
+    Final ac cy s := by
+  obtain ⟨ds, e, k, hp, hcount, houts, hsd, hcase⟩ := hD.ex
+  rw [hprog, hcl] at hp
+  have hk : k = 0 := by
+    cases k with
+    | zero => rfl
+    | succ k' => simp [List.replicate_succ] at hp
+  subst hk
+  rcases hcase with ⟨he, hdr, hperm, hle, _⟩ | ⟨he, _, hperm⟩
+  · subst he
+    refine ⟨ds ++ sortRun (remaining s.m), D_ys hsd hperm hle, ?_⟩
+    rw [houts, ← final_outs ac cy ds (sortRun (remaining s.m)) 0 (by omega) (by omega), hcl]
+    simp
+  · refine ⟨ds ++ [], by rw [List.append_nil]; exact ⟨hperm, hsd⟩, ?_⟩
+    rw [houts, ← final_outs ac cy ds [] e (by omega) (fun _ => rfl), hcl]
+    simp
+
+theorem D_cstep {s t : CState} (hD : PhaseD c ac cy s) (hst : CStep s t) : CInv c ac cy t := by
+  obtain ⟨ds, e, k, hp, hcount, houts, hsd, hcase⟩ := hD.ex
+  have hfast : s.m.fast = true → s.m.files = [] := by
+    intro hf
+    have from_dr : ∀ {n}, Draining c ac 1 s.m n → s.m.files = [] := by
+      intro n hdr
+      rcases hdr.shape with ⟨_, h, _⟩ | ⟨h, _⟩
+      · exact h
+      · rw [hf] at h; cases h
+    rcases hcase with ⟨_, hdr, _⟩ | ⟨_, hat, _⟩
+    · exact from_dr hdr
+    · rcases hat with ⟨hdr, _⟩ | ⟨_, hfr⟩
+      · exact from_dr hdr
+      · exact hfr.files
+  have pcne : ∀ {p : CPc}, s.pc = p → p = .idle := fun hp' => by rw [← hp']; exact hD.pc
+  have progne : ∀ {op : Op} {rest : List Op}, s.prog = op :: rest → op = Op.pull ∨ op = Op.clear := by
+    intro op rest h'; rw [hp] at h'; exact dprog_not h'
+  cases hst with
+  | pushErr _ _ _ _ h' => rcases progne h' with h | h <;> cases h
+  | pushNil _ _ _ h' => rcases progne h' with h | h <;> cases h
+  | pushFull _ _ _ _ h' => rcases progne h' with h | h <;> cases h
+  | pushRoom _ _ _ _ h' => rcases progne h' with h | h <;> cases h
+  | finErr _ _ _ h' => rcases progne h' with h | h <;> cases h
+  | finNil _ _ h' => rcases progne h' with h | h <;> cases h
+  | finFast _ _ _ h' => rcases progne h' with h | h <;> cases h
+  | finDisk _ _ _ h' => rcases progne h' with h | h <;> cases h
+  | finEmpty _ _ _ _ _ _ h' => rcases progne h' with h | h <;> cases h
+  | send _ _ hpc => cases pcne hpc
+  | recvErr _ _ _ hpc => cases pcne hpc
+  | recvOk _ _ hpc => cases pcne hpc
+  | fsend _ _ hpc => cases pcne hpc
+  | fwrite _ _ hpc => cases pcne hpc
+  | waitErr _ hpc => cases pcne hpc
+  | waitOk _ _ _ hpc => cases pcne hpc
+  | pull rest hpc hprog =>
+    rw [hp] at hprog
+    obtain ⟨k', rfl, hrest⟩ := dprog_pull hprog
+    have hfr := pullF_frame s
+    rcases pullF_spec s hfast with hio | ⟨hm, hres⟩
+    · refine Or.inl ?_
+      rw [hio]; exact Reported_finish _
+    · have hquiet : ∀ w ∈ (finishOp (pullF s).1 (pullF s).2.1 (pullF s).2.2).writers, w.pc = .done := by
+        intro w hw; simp only [finishOp, hfr.writers] at hw; exact hD.quiet w hw
+      have hprog' : ∀ r v, r ≠ Res.panic → r ≠ Res.hang → r ≠ Res.ioerr →
+          (finishOp (pullF s).1 r v).prog = List.replicate k' Op.pull ++ (if cy.clear then [Op.clear] else []) := by
+        intro r v h1 h2 h3
+        simp only [finishOp, h1, h2, h3, or_self, if_false, hfr.prog, hp]
+        simp [List.replicate_succ]
+      have houts' : ∀ r v, (finishOp (pullF s).1 r v).outs.reverse
+          = s.outs.reverse ++ [⟨r, v, (pull s.m).1.len, (pull s.m).1.pos⟩] := by
+        intro r v; rw [finishOp_outs, hfr.outs, hm]
+      rcases hcase with ⟨he, hdr, hperm, hle, hpos⟩ | ⟨he, hat, hperm⟩
+      · subst he
+        by_cases hrem : remaining s.m = []
+        · -- io.EOF
+          obtain ⟨h1, h2, h3, h4⟩ := pull_eof (Nat.le_refl 1) hdr hrem
+          have hr : (pullF s).2.1 = .eof := by rw [hres, h1]
+          have hv : (pullF s).2.2 = none := by rw [hres, h1]
+          have hlp : (⟨.eof, none, (pull s.m).1.len, (pull s.m).1.pos⟩ : Out) = eofOut ac cy.pushes.length := by
+            cases ac with
+            | true => have := h3 rfl; simp [eofOut, this.len, this.pos]
+            | false => obtain ⟨a, b⟩ := h4 rfl; simp [eofOut, a, b]
+          have herr' : (pull s.m).1.err = none := by
+            rcases h2 with ⟨hd', _⟩ | ⟨_, hf'⟩
+            · exact hd'.err
+            · exact hf'.err
+          refine Or.inr (Or.inr ⟨by simp [finishOp, hm, herr'], Or.inr (Or.inr (Or.inl ⟨rfl, hquiet, ?_⟩))⟩)
+          refine ⟨ds, 1, k', ?_, by omega, ?_, hsd, Or.inr ⟨by omega, ?_, ?_⟩⟩
+          · rw [hr]; exact hprog' _ _ (by simp) (by simp) (by simp)
+          · rw [hr, hv, houts', houts, hlp]; simp
+          · show AtEof c ac 1 (finishOp _ _ _).m _; simp only [finishOp, hm]; exact h2
+          · rw [hrem] at hperm; simpa using hperm
+        · -- a value
+          obtain ⟨v, h1, h2, hdr', hperm', hmin⟩ := pull_some hdr hrem
+          have hr : (pullF s).2.1 = .ok := by rw [hres, h1]
+          have hv : (pullF s).2.2 = some v := by rw [hres, h2]
+          have hpos' : (pull s.m).1.pos = ds.length + 1 := by
+            have a := hdr.cnt; have b := hdr'.cnt
+            have := hperm'.length_eq; simp only [List.length_cons] at this
+            omega
+          refine Or.inr (Or.inr ⟨by simp [finishOp, hm, hdr'.err], Or.inr (Or.inr (Or.inl ⟨rfl, hquiet, ?_⟩))⟩)
+          refine ⟨ds ++ [v], 0, k', ?_, by simp; omega, ?_, ?_, Or.inl ⟨rfl, ?_, ?_, ?_, ?_⟩⟩
+          · rw [hr]; exact hprog' _ _ (by simp) (by simp) (by simp)
+          · rw [hr, hv, houts', houts, dOuts_append, hdr'.len, hpos']; simp
+          · apply sorted_append hsd (by simp [Sorted])
+            intro a ha b hb
+            simp only [List.mem_singleton] at hb; subst hb
+            exact hle a ha b (hperm'.mem_iff.mpr (by simp))
+          · show Draining c ac 1 (finishOp _ _ _).m _; simp only [finishOp, hm]; exact hdr'
+          · simp only [finishOp, hm]
+            refine List.Perm.trans ?_ hperm
+            rw [List.append_assoc]
+            exact List.Perm.append_left ds hperm'.symm
+          · intro d hd r hr'
+            simp only [finishOp, hm] at hr'
+            rcases List.mem_append.mp hd with hd | hd
+            · exact hle d hd r (hperm'.mem_iff.mpr (List.mem_cons_of_mem _ hr'))
+            · simp only [List.mem_singleton] at hd; subst hd; exact hmin r hr'
+          · simp [finishOp, hm, hpos']
+      · -- io.EOF again
+        obtain ⟨h1, h2, _⟩ := step_pull_ateof (Nat.le_refl 1) hat
+        have hstep : Morass.step s.m .pull = ((pull s.m).1, ⟨(pull s.m).2.1, (pull s.m).2.2, (pull s.m).1.len, (pull s.m).1.pos⟩) := rfl
+        rw [hstep] at h1 h2
+        simp only at h1 h2
+        have hr : (pullF s).2.1 = .eof := by rw [hres]; have := congrArg Out.res h1; simpa [eofOut] using this
+        have hv : (pullF s).2.2 = none := by rw [hres]; have := congrArg Out.val h1; simpa [eofOut] using this
+        have hlp : (⟨.eof, none, (pull s.m).1.len, (pull s.m).1.pos⟩ : Out) = eofOut ac cy.pushes.length := by
+          rw [← h1]
+          have a := congrArg Out.res h1; have b := congrArg Out.val h1
+          simp only [eofOut] at a b
+          simp [a, b]
+        have herr' : (pull s.m).1.err = none := by
+          rcases h2 with ⟨hd', _⟩ | ⟨_, hf'⟩
+          · exact hd'.err
+          · exact hf'.err
+        refine Or.inr (Or.inr ⟨by simp [finishOp, hm, herr'], Or.inr (Or.inr (Or.inl ⟨rfl, hquiet, ?_⟩))⟩)
+        refine ⟨ds, e + 1, k', ?_, by omega, ?_, hsd, Or.inr ⟨by omega, ?_, hperm⟩⟩
+        · rw [hr]; exact hprog' _ _ (by simp) (by simp) (by simp)
+        · rw [hr, hv, houts', houts, hlp]; simp [List.replicate_succ']
+        · show AtEof c ac 1 (finishOp _ _ _).m _; simp only [finishOp, hm]; exact h2
+  | clear rest hpc hprog =>
+    rw [hp] at hprog
+    obtain ⟨rfl, hcl, rfl⟩ := dprog_clear hprog
+    have hfr := clearF_frame s
+    rcases clearF_spec s with ⟨hio, _⟩ | ⟨hok, hm⟩
+    · refine Or.inl ?_
+      rw [hio]; exact Reported_finish _
+    · obtain ⟨hl0, hp0, he0⟩ := clear_len_pos s.m
+      refine Or.inr (Or.inr ⟨by simp [finishOp, hm, he0], Or.inr (Or.inr (Or.inr ⟨rfl, ?_, ?_, ?_⟩))⟩)
+      · rw [hok, finishOp_ok_prog, hfr.prog, hp, hcl]; rfl
+      · intro w hw; simp only [finishOp, hfr.writers] at hw; exact hD.quiet w hw
+      · have houts' : (finishOp (clearF s).1 (clearF s).2 none).outs.reverse
+            = s.outs.reverse ++ [⟨.ok, none, 0, 0⟩] := by
+          rw [finishOp_outs, hfr.outs, hm, hok, hl0, hp0]
+        rcases hcase with ⟨he, hdr, hperm, hle, _⟩ | ⟨he, _, hperm⟩
+        · subst he
+          refine ⟨ds ++ sortRun (remaining s.m), D_ys hsd hperm hle, ?_⟩
+          rw [houts', houts, ← final_outs ac cy ds (sortRun (remaining s.m)) 0 (by omega) (by omega), hcl]
+          simp
+        · refine ⟨ds ++ [], by rw [List.append_nil]; exact ⟨hperm, hsd⟩, ?_⟩
+          rw [houts', houts, ← final_outs ac cy ds [] e (by omega) (fun _ => rfl), hcl]
+          simp
+
+/-! ### the invariant holds in every reachable state -/
+
+theorem E_cstep {s t : CState} (hE : PhaseEnd ac cy s) (hst : CStep s t) : CInv c ac cy t := by
+  have pcne : ∀ {p : CPc}, s.pc = p → p = .idle := fun hp' => by rw [← hp']; exact hE.pc
+  have progne : ∀ {op : Op} {rest : List Op}, s.prog = op :: rest → False := by
+    intro op rest h'; rw [hE.prog] at h'; cases h'
+  cases hst with
+  | pushErr _ _ _ _ h' => exact (progne h').elim
+  | pushNil _ _ _ h' => exact (progne h').elim
+  | pushFull _ _ _ _ h' => exact (progne h').elim
+  | pushRoom _ _ _ _ h' => exact (progne h').elim
+  | finErr _ _ _ h' => exact (progne h').elim
+  | finNil _ _ h' => exact (progne h').elim
+  | finFast _ _ _ h' => exact (progne h').elim
+  | finDisk _ _ _ h' => exact (progne h').elim
+  | finEmpty _ _ _ _ _ _ h' => exact (progne h').elim
+  | pull _ _ h' => exact (progne h').elim
+  | clear _ _ h' => exact (progne h').elim
+  | send _ _ hpc => cases pcne hpc
+  | recvErr _ _ _ hpc => cases pcne hpc
+  | recvOk _ _ hpc => cases pcne hpc
+  | fsend _ _ hpc => cases pcne hpc
+  | fwrite _ _ hpc => cases pcne hpc
+  | waitErr _ hpc => cases pcne hpc
+  | waitOk _ _ _ hpc => cases pcne hpc
+
+theorem CInv_step {s t : CState} {i : Nat} (hc : 1 ≤ c) (hs : Str s) (h : CInv c ac cy s)
+    (hst : step s i = some t) : CInv c ac cy t := by
+  cases i with
+  | zero =>
+    have hcs := cstep_cases (show cstep s = some t from hst)
+    rcases h with hrep | hpend | ⟨herr, hF | hZ | hD | hE⟩
+    · exact Or.inl (Reported_cstep hs hrep hcs)
+    · rcases Pending_cstep hs hpend hcs with h' | h'
+      · exact Or.inl h'
+      · exact Or.inr (Or.inl h')
+    · obtain ⟨xs, todo, ch, cp, hF⟩ := hF
+      exact F_cstep c ac cy hc hs herr hF hcs
+    · obtain ⟨A, cp, hZ⟩ := hZ
+      exact Z_cstep c ac cy hs herr hZ hcs
+    · exact D_cstep c ac cy hD hcs
+    · exact E_cstep c ac cy hE hcs
+  | succ k =>
+    simp only [step] at hst
+    cases hk : s.writers[k]? with
+    | none => simp [hk] at hst
+    | some w =>
+      simp only [hk] at hst
+      cases hw : wstep s w with
+      | none => simp [hw] at hst
+      | some p =>
+        obtain ⟨w', s'⟩ := p
+        simp only [hw, Option.some.injEq] at hst; subst hst
+        exact CInv_wactor c ac cy hs h hk hw
+
+theorem CInv_init (conc : Bool) (acl : Bool) (flt : Fault) :
+    CInv c ac cy (initState conc c ac acl cy.ops flt) := by
+  refine Or.inr (Or.inr ⟨rfl, Or.inl ⟨[], cy.pushes, [], [], ?_⟩⟩)
+  refine ⟨by simp, cycle_ops_eq cy, by simp [initState, pushOuts], rfl, rfl, rfl, rfl, rfl, by simp,
+    fun _ => ⟨rfl, rfl⟩, DI_init, Or.inl ⟨rfl, rfl, by simp [initState], fun h => by simp [initState] at h⟩⟩
+
+theorem reach_CInv (hc : 1 ≤ c) {conc acl : Bool} {flt : Fault} {s : CState}
+    (h : Reach (sys conc c ac acl cy.ops flt) s) : CInv c ac cy s := by
+  have : Str s ∧ CInv c ac cy s := by
+    refine inv_of_reach _ (fun s => Str s ∧ CInv c ac cy s) ⟨Str_init _ _ _ _ _ _, CInv_init c ac cy conc acl flt⟩ ?_ s h
+    intro a i b hab hst
+    exact ⟨Str_step hab.1 hst, CInv_step c ac cy hc hab.1 hab.2 hst⟩
+  exact this.2
+
+/-- when the caller has returned from the last call of the cycle: an I/O error was returned to
+    it, or all outputs are those the property demands -/
+theorem finished_of_CInv {s : CState} (h : CInv c ac cy s) (hfin : finished s = true) :
+    Reported s ∨ Final ac cy s := by
+  simp only [finished, Bool.and_eq_true, List.isEmpty_iff, beq_iff_eq] at hfin
+  obtain ⟨hprog, hpc⟩ := hfin
+  rcases h with hrep | hpend | ⟨_, hF | hZ | hD | hE⟩
+  · exact Or.inl hrep
+  · obtain ⟨_, ⟨e, r, h'⟩ | ⟨r, h'⟩⟩ := hpend <;> rw [hprog] at h' <;> cases h'
+  · obtain ⟨xs, todo, ch, cp, hF⟩ := hF
+    have := hF.prog; rw [hprog] at this
+    cases todo <;> simp at this
+  · obtain ⟨A, cp, hZ⟩ := hZ
+    have := hZ.prog; rw [hprog] at this; cases this
+  · right
+    obtain ⟨ds, e, k, hp, _⟩ := hD.ex
+    rw [hprog] at hp
+    have hcl : cy.clear = false := by
+      cases hcl : cy.clear with
+      | false => rfl
+      | true => rw [hcl] at hp; cases k <;> simp [List.replicate_succ] at hp
+    exact D_final c ac cy hD hprog hcl
+  · exact Or.inr hE.final
+
+/-! ### without an injected fault nothing fails -/
+
+def NoFault (s : CState) : Prop := s.flt = none ∧ s.m.err = none ∧ ∀ o ∈ s.outs, o.res ≠ .ioerr
+
+theorem tick_none (pt : Pt) : tick none pt = (false, none) := rfl
+
+theorem clearLoop_none : ∀ (d : Nat) (fs : List File), ∃ d', clearLoop none d fs = (none, d', true) := by
+  intro d fs
+  induction fs generalizing d with
+  | nil => exact ⟨d, rfl⟩
+  | cons f fs ih =>
+    obtain ⟨d', h⟩ := ih (d - 1)
+    exact ⟨d', by simp [clearLoop, tick_none, h]⟩
+
+theorem primeAll_none : ∀ (fs : List File), ∃ fs', primeAll none fs = (none, fs', true) := by
+  intro fs
+  induction fs with
+  | nil => exact ⟨[], rfl⟩
+  | cons f fs ih =>
+    obtain ⟨fs', h⟩ := ih
+    exact ⟨primeFile f :: fs', by simp [primeAll, tick_none, h]⟩
+
+theorem clearF_nofault {s : CState} (h : s.flt = none) :
+    (clearF s).2 = .ok ∧ (clearF s).1.flt = none ∧ (clearF s).1.m.err = none := by
+  obtain ⟨d', hd⟩ := clearLoop_none s.onDisk s.m.files
+  refine ⟨?_, ?_, ?_⟩ <;> simp [clearF, h, hd, (clear_len_pos s.m).2.2]
+
 end Biogo.MorassConc
